@@ -1,5 +1,5 @@
 """C13 -- the solution set does not depend on how the model is written down (encoding coherence)."""
-from ..rules import model, optimize, engine
+from ..rules import model, optimize, engine, kinds
 
 EXPLANATION = (
     "Static analysis of encoding coherence in Problem.init (abstractly interpreted, Python level): stable in-place sort before every derivation loop with a key reading only the constraint tuple; algorithms[p], cumulative var/param bounds, props_dom_indices / props_dom_offsets slices filled from dom_indices_arr / dom_offsets_arr at the same prop_vars and the same [start:end], props_parameters, triggers obtained from the constraint's own trigger function and joined with |=; derived attributes re-created from fresh allocations; plus the offset round trip view = shared + o / write-back = view - o / solution = shared + o / tightening = value -/+ 1 - o. Not invariance of solution sets under rewrites. Also: the wake-up table is filled cell by cell (a fancy-indexed |= over a repeated index keeps the last write); where one constraint sees one shared domain through several views, the views are intersected with an emptiness test and the constraint is re-run after its own write-back (queue drain, queue writers); Optional[int] API arguments (dom_index, dom_offset) are tested with `is None`; domain lists written as one object or as several behave alike (R-DOMAIN-LISTS: an in-place store into a [min, max] list requires every writer of the domain list to store lists created on the spot)."
@@ -17,3 +17,4 @@ def check(ctx, prog):
     # separate-variables encoding: the views must be intersected (R-WRITEBACK-MONO) and the constraint re-run after its own write-back
     engine.rule_queue_drain(ctx, prog)
     engine.rule_queue_writers(ctx, prog, thorough=ctx.tier == "thorough")
+    kinds.rule_index_kind(ctx, prog)  # a number is a variable index or a shared-domain index, not both
